@@ -9,6 +9,7 @@ use std::alloc::Allocator;
 use std::ops::{Add, Mul, Range};
 verus! {
 //@include ../shim/order.rs
+//@include ../shim/lane.rs
 //@include ../shim/slices_min.rs
 //@include ../shim/bins_types.rs
 //@include ../shim/num.rs
